@@ -1,17 +1,17 @@
 SPECIFICATION Spec
 CONSTANTS
-  Transport = "quic"
+  Transport = "tls"
   ResidueAfterFailure = FALSE
   ShortCookieRead = FALSE
   DialResetsData = TRUE
-  Alpns <- AlpnsQuic
-  Alphabet <- AlphaCore
+  Alpns <- AlpnsTls
+  Alphabet <- AlphaAll
   CutRecs <- CutCore
   MaxRecs = 4
   MaxDials = 3
   MaxCalls = 4
   MaxStore = 1
-  CtxMode = "returns"
+  CtxMode = "ignored"
   MaxStalls = 1
-INVARIANTS TypeOK SuccessOnlyIf KeysAgree PoolIsIssued PoolReturned Destination NoResidue
+INVARIANTS TypeOK SuccessOnlyIf KeysAgree PoolIsIssued PoolReturned Destination NoResidue NoResidueState
 PROPERTIES IgnoresNonCritical
